@@ -278,6 +278,50 @@ fn sync_leak_probe(rec: &mut Rec, i: usize, seed: u64) {
     rec.extra = json!({"family": "iso", "iterations": n, "iterations_compared_with_a_pristine_replay": compared});
 }
 
+fn thread_limit_probe(rec: &mut Rec) {
+    use std::sync::atomic::Ordering::SeqCst;
+    rec.prog = "main + 4 threads (the default max_threads), each child: x.fetch_add(1, Relaxed); main joins and reads x".into();
+    rec.hash = fnv(&rec.prog);
+    rec.extra = json!({"family": "iso"});
+    let iters = std::sync::Arc::new(std::sync::atomic::AtomicUsize::new(0));
+    let i2 = iters.clone();
+    let res = std::panic::catch_unwind(std::panic::AssertUnwindSafe(|| {
+        let mut b = loom::model::Builder::new();
+        b.preemption_bound = Some(1);
+        b.check(move || {
+            if i2.fetch_add(1, SeqCst) >= 50_000 {
+                panic!("{}", ITER_CAP_MSG);
+            }
+            let x = std::sync::Arc::new(loom::sync::atomic::AtomicUsize::new(0));
+            let hs: Vec<_> = (0..4)
+                .map(|_| {
+                    let x = x.clone();
+                    loom::thread::spawn(move || {
+                        x.fetch_add(1, std::sync::atomic::Ordering::Relaxed);
+                    })
+                })
+                .collect();
+            for h in hs {
+                h.join().unwrap();
+            }
+            assert_eq!(x.load(std::sync::atomic::Ordering::Relaxed), 4);
+        });
+    }));
+    rec.runs = 1;
+    rec.iters = iters.load(SeqCst) as u64;
+    rec.nontrivial = rec.iters >= 2;
+    if let Err(e) = res {
+        let m = panic_msg(e);
+        if classify(&m) == PanicKind::IterCap {
+            rec.status = "inconclusive:iteration-cap".into();
+        } else {
+            rec.v("iteration_state_leaks", "", format!("the first iteration ran with 5 threads, iteration {} of the same program failed: {}", rec.iters, m.lines().next().unwrap_or("")));
+        }
+    } else if rec.iters < 2 {
+        rec.v("harness_error", "", "the 5-thread program has a single iteration".to_string());
+    }
+}
+
 pub fn work(tier: u8, seed: u64, idx: usize) -> Rec {
     let mut rec = Rec::new(idx);
     if idx < 8 {
@@ -291,6 +335,11 @@ pub fn work(tier: u8, seed: u64, idx: usize) -> Rec {
     if idx < 8 + N_SYNC_PROBES + 2 {
         // litmus probes 4 and 5 (a main thread that yields), no control placement
         leak_probe(&mut rec, 100 + idx - 8 - N_SYNC_PROBES, seed);
+        return rec;
+    }
+    if idx + 1 == total(tier) {
+        // as many threads as the default limit allows (main + 4): what the first iteration may do, every later one may
+        thread_limit_probe(&mut rec);
         return rec;
     }
     let (p, s) = progs(seed, idx);
